@@ -116,6 +116,8 @@ func (tc *TwoChain) RelayMsg(executor sim.Account, d L1DepositEvent) *opchildtyp
 }
 
 // RelayNext relays the oldest pending deposit; withdrawals (refunds) it causes are recorded.
+// An in-order relay that is answered with anything but SUCCESS is turned into an error result:
+// the executor cannot make progress with it.
 func (tc *TwoChain) RelayNext() (sim.Result, bool) {
 	if len(tc.PendingDeposits) == 0 {
 		return sim.Result{}, false
@@ -126,6 +128,8 @@ func (tc *TwoChain) RelayNext() (sim.Result, bool) {
 		if r, ok := res.Resp().(*opchildtypes.MsgFinalizeTokenDepositResponse); ok && r.Result == opchildtypes.SUCCESS {
 			tc.PendingDeposits = tc.PendingDeposits[1:]
 			tc.record(res)
+		} else {
+			return sim.Result{Class: sim.ERR, Err: fmt.Errorf("in-order relay of L1 sequence %d was answered %v instead of SUCCESS", d.Seq, res.Resp())}, true
 		}
 	}
 	return res, true
